@@ -544,7 +544,7 @@ def check(case, tr):
     # explicit rank dependencies
     names = {}
     for st in case.graphs["main"]:
-        if st.dst and st.uid() is not None and st.op != "ite":      # an ite statement's uid names its selector node
+        if st.dst and st.uid() is not None and st.op not in ("ite", "icmp"):      # an ite statement's uid names its selector node
             names[st.dst] = st.uid()
     for later, earlier in case.meta.get("ranks", []):
         ul, ue_ = names.get(later), names.get(earlier)
